@@ -1,39 +1,127 @@
-//! Witness inputs of open known findings that show at compile time. One `// @witness <id> <side>` marker per
-//! item; `sd` = std's derive on the identical definition (must always compile), `dm` = derive_more's.
-#![allow(dead_code)]
+//! Witness inputs of open known findings that show at compile time (known_findings.json). One
+//! `// @witness <id> <side>` marker per item; `sd` = std's derive on the identical definition in the identical
+//! surroundings (must always compile), `dm` = derive_more's. Generated once by hand from the table in DESIGN.md §7.1.
+#![allow(dead_code, unexpected_cfgs)]
+// each `dm` witness is compiled on its own (`--cfg 'w="<id>"'`): rustc stops at the first failing phase, so one
+// witness's name-resolution error would hide another's borrow-check error
 
 pub mod sd {
     // @witness param-and-ref-param-tuple sd
-    #[derive(Debug)]
-    pub struct A<'a, T>(pub T, pub &'a T);
+    pub mod w0 {
+        #[derive(::core::fmt::Debug)]
+        pub struct A<'a, T>(pub T, pub &'a T);
+    }
     // @witness param-and-ref-param-named sd
-    #[derive(Debug)]
-    pub struct B<'a, T> { pub a: Vec<T>, pub b: &'a Vec<T> }
+    pub mod w1 {
+        #[derive(::core::fmt::Debug)]
+        pub struct B<'a, T> { pub a: Vec<T>, pub b: &'a Vec<T> }
+    }
     // @witness two-lifetimes-same-referent sd
-    #[derive(Debug)]
-    pub struct C<'a, 'b, T>(pub &'a T, pub &'b T);
+    pub mod w2 {
+        #[derive(::core::fmt::Debug)]
+        pub struct C<'a, 'b, T>(pub &'a T, pub &'b T);
+    }
     // @witness param-and-ref-param-enum sd
-    #[derive(Debug)]
-    pub enum D<'a, T> { X(T), Y(&'a T) }
+    pub mod w3 {
+        #[derive(::core::fmt::Debug)]
+        pub enum D<'a, T> { X(T), Y(&'a T) }
+    }
     // @witness two-lifetimes-in-generic-args sd
-    #[derive(Debug)]
-    pub struct E<'a, 'b, T>(pub Option<&'a T>, pub std::cell::Ref<'b, Option<&'b T>>, pub Option<&'b T>);
+    pub mod w4 {
+        #[derive(::core::fmt::Debug)]
+        pub struct E<'a, 'b, T>(pub Option<&'a T>, pub std::cell::Ref<'b, Option<&'b T>>, pub Option<&'b T>);
+    }
+    // @witness repr-packed-tuple sd
+    pub mod w5 {
+        #[derive(::core::fmt::Debug)]
+        #[repr(packed)] pub struct P1(pub u8, pub u32);
+    }
+    // @witness repr-packed-named sd
+    pub mod w6 {
+        #[derive(::core::fmt::Debug)]
+        #[repr(C, packed(2))] pub struct P2 { pub a: u8, pub b: u64 }
+    }
+    // @witness denied-non-snake-case-field sd
+    pub mod w7 {
+        #![deny(non_snake_case)]
+        #[derive(::core::fmt::Debug)]
+        #[allow(non_snake_case)] pub struct N1 { pub fooBar: u8 }
+    }
+    // @witness forbidden-unreachable-code sd
+    pub mod w8 {
+        #![forbid(unreachable_code)]
+        #[derive(::core::fmt::Debug)]
+        pub struct F1(pub u8);
+    }
+    // @witness no-implicit-prelude sd
+    pub mod w9 {
+        #![no_implicit_prelude]
+        #[derive(::core::fmt::Debug)]
+        pub struct I1(pub u8, pub u8);
+    }
 }
-
 pub mod dm {
     // @witness param-and-ref-param-tuple dm
-    #[derive(derive_more::Debug)]
-    pub struct A<'a, T>(pub T, pub &'a T);
+    #[cfg(w = "param-and-ref-param-tuple")]
+    pub mod w0 {
+        #[derive(::derive_more::Debug)]
+        pub struct A<'a, T>(pub T, pub &'a T);
+    }
     // @witness param-and-ref-param-named dm
-    #[derive(derive_more::Debug)]
-    pub struct B<'a, T> { pub a: Vec<T>, pub b: &'a Vec<T> }
+    #[cfg(w = "param-and-ref-param-named")]
+    pub mod w1 {
+        #[derive(::derive_more::Debug)]
+        pub struct B<'a, T> { pub a: Vec<T>, pub b: &'a Vec<T> }
+    }
     // @witness two-lifetimes-same-referent dm
-    #[derive(derive_more::Debug)]
-    pub struct C<'a, 'b, T>(pub &'a T, pub &'b T);
+    #[cfg(w = "two-lifetimes-same-referent")]
+    pub mod w2 {
+        #[derive(::derive_more::Debug)]
+        pub struct C<'a, 'b, T>(pub &'a T, pub &'b T);
+    }
     // @witness param-and-ref-param-enum dm
-    #[derive(derive_more::Debug)]
-    pub enum D<'a, T> { X(T), Y(&'a T) }
+    #[cfg(w = "param-and-ref-param-enum")]
+    pub mod w3 {
+        #[derive(::derive_more::Debug)]
+        pub enum D<'a, T> { X(T), Y(&'a T) }
+    }
     // @witness two-lifetimes-in-generic-args dm
-    #[derive(derive_more::Debug)]
-    pub struct E<'a, 'b, T>(pub Option<&'a T>, pub std::cell::Ref<'b, Option<&'b T>>, pub Option<&'b T>);
+    #[cfg(w = "two-lifetimes-in-generic-args")]
+    pub mod w4 {
+        #[derive(::derive_more::Debug)]
+        pub struct E<'a, 'b, T>(pub Option<&'a T>, pub std::cell::Ref<'b, Option<&'b T>>, pub Option<&'b T>);
+    }
+    // @witness repr-packed-tuple dm
+    #[cfg(w = "repr-packed-tuple")]
+    pub mod w5 {
+        #[derive(::derive_more::Debug)]
+        #[repr(packed)] pub struct P1(pub u8, pub u32);
+    }
+    // @witness repr-packed-named dm
+    #[cfg(w = "repr-packed-named")]
+    pub mod w6 {
+        #[derive(::derive_more::Debug)]
+        #[repr(C, packed(2))] pub struct P2 { pub a: u8, pub b: u64 }
+    }
+    // @witness denied-non-snake-case-field dm
+    #[cfg(w = "denied-non-snake-case-field")]
+    pub mod w7 {
+        #![deny(non_snake_case)]
+        #[derive(::derive_more::Debug)]
+        #[allow(non_snake_case)] pub struct N1 { pub fooBar: u8 }
+    }
+    // @witness forbidden-unreachable-code dm
+    #[cfg(w = "forbidden-unreachable-code")]
+    pub mod w8 {
+        #![forbid(unreachable_code)]
+        #[derive(::derive_more::Debug)]
+        pub struct F1(pub u8);
+    }
+    // @witness no-implicit-prelude dm
+    #[cfg(w = "no-implicit-prelude")]
+    pub mod w9 {
+        #![no_implicit_prelude]
+        #[derive(::derive_more::Debug)]
+        pub struct I1(pub u8, pub u8);
+    }
 }
